@@ -12,6 +12,8 @@ import (
 	"time"
 
 	v120 "github.com/chain4energy/c4e-chain/app/upgrades/v120"
+	distrtypes "github.com/chain4energy/c4e-chain/x/cfedistributor/types"
+	mintertypes "github.com/chain4energy/c4e-chain/x/cfeminter/types"
 	vestkeeper "github.com/chain4energy/c4e-chain/x/cfevesting/keeper"
 	v2 "github.com/chain4energy/c4e-chain/x/cfevesting/migrations/v2"
 	v3 "github.com/chain4energy/c4e-chain/x/cfevesting/migrations/v3"
@@ -20,6 +22,7 @@ import (
 	sdk "github.com/cosmos/cosmos-sdk/types"
 	authtypes "github.com/cosmos/cosmos-sdk/x/auth/types"
 	vestingtypes "github.com/cosmos/cosmos-sdk/x/auth/vesting/types"
+	upgradetypes "github.com/cosmos/cosmos-sdk/x/upgrade/types"
 )
 
 var upgradeNames = map[string]int64{}
@@ -218,6 +221,9 @@ func runUpgradeCase(ta *TestApp, seed uint64, idx int, rep *Report, profile stri
 				panicked = fmt.Sprint(r)
 			}
 		}()
+		if profile == "handler" {
+			return // the migration runs inside the upgrade handler below
+		}
 		if err := v3.MigrateStore(ctx, storeKey, app.AppCodec()); err != nil {
 			panicked = "MigrateStore: " + err.Error()
 			return
@@ -243,10 +249,26 @@ func runUpgradeCase(ta *TestApp, seed uint64, idx int, rep *Report, profile stri
 			}
 		}
 	}
-	rep.Eval("C16.migration_copies_pools_field_for_field", okMig, idx, 0, "v2 -> v3 pool migration changed a pool")
+	if profile != "handler" {
+		rep.Eval("C16.migration_copies_pools_field_for_field", okMig, idx, 0, "v2 -> v3 pool migration changed a pool")
+	}
 	// model input: the owner's pools after the migration
 	var modelPools string = "None"
 	ownerPre, ownerFound := k.GetAccountVestingPools(ctx, owner)
+	if profile == "handler" {
+		// the store still holds the legacy records: the migrated pools are the legacy ones field for field (checked in the other profiles)
+		ownerFound = false
+		for _, lo := range owners {
+			if lo.addr == owner {
+				ownerFound = true
+				ownerPre = vesttypes.AccountVestingPools{Owner: owner}
+				for _, o := range lo.pools {
+					ownerPre.VestingPools = append(ownerPre.VestingPools, &vesttypes.VestingPool{Name: o.Name, VestingType: o.VestingType, LockStart: o.LockStart, LockEnd: o.LockEnd,
+						InitiallyLocked: o.InitiallyLocked, Withdrawn: o.Withdrawn, Sent: o.Sent})
+				}
+			}
+		}
+	}
 	if ownerFound {
 		var ps []string
 		for _, p := range ownerPre.VestingPools {
@@ -261,12 +283,58 @@ func runUpgradeCase(ta *TestApp, seed uint64, idx int, rep *Report, profile stri
 			preTotal = preTotal.Add(p.GetCurrentlyLocked())
 		}
 	}
+	if profile == "handler" {
+		preTotal = total
+	}
 	func() {
 		defer func() {
 			if r := recover(); r != nil {
 				panicked = fmt.Sprint(r)
 			}
 		}()
+		if profile == "handler" {
+			// the whole registered v1.2.0 handler through x/upgrade: module versions as on a v1.1.0 chain, parameters still in x/params
+			vm := app.UpgradeKeeper.GetModuleVersionMap(ctx)
+			vm[mintertypes.ModuleName], vm[distrtypes.ModuleName], vm[vesttypes.ModuleName] = 2, 2, 2
+			app.UpgradeKeeper.SetModuleVersionMap(ctx, vm)
+			mp := app.CfeminterKeeper.GetParams(ctx)
+			var lms []*mintertypes.LegacyMinter
+			for _, m := range mp.Minters {
+				lm := &mintertypes.LegacyMinter{SequenceId: m.SequenceId, EndTime: m.EndTime, Type: mintertypes.NoMintingType}
+				if cfg, err := m.GetMinterConfig(); err == nil {
+					switch v := cfg.(type) {
+					case *mintertypes.LinearMinting:
+						lm.Type, lm.LinearMinting = mintertypes.LinearMintingType, v
+					case *mintertypes.ExponentialStepMinting:
+						lm.Type, lm.ExponentialStepMinting = mintertypes.ExponentialStepMintingType, v
+					}
+				}
+				lms = append(lms, lm)
+			}
+			msub := withKeyTable(app.GetSubspace(mintertypes.ModuleName), mintertypes.ParamKeyTable())
+			msub.Set(ctx, mintertypes.KeyMintDenom, mp.MintDenom)
+			msub.Set(ctx, mintertypes.KeyMinterConfig, mintertypes.MinterConfig{StartTime: mp.StartTime, Minters: lms})
+			dp := app.CfedistributorKeeper.GetParams(ctx)
+			dsub := withKeyTable(app.GetSubspace(distrtypes.ModuleName), distrtypes.ParamKeyTable())
+			dsub.Set(ctx, distrtypes.KeySubDistributors, dp.SubDistributors)
+			vsub := withKeyTable(app.GetSubspace(vesttypes.ModuleName), vesttypes.ParamKeyTable())
+			vsub.Set(ctx, vesttypes.KeyDenom, BondDenom)
+			ctx.KVStore(app.GetKey(mintertypes.StoreKey)).Delete(mintertypes.ParamsKey)
+			ctx.KVStore(app.GetKey(distrtypes.StoreKey)).Delete(distrtypes.ParamsKey)
+			ctx.KVStore(storeKey).Delete(vesttypes.ParamsKey)
+			app.UpgradeKeeper.ApplyUpgrade(ctx, upgradetypes.Plan{Name: v120.UpgradeName, Height: ctx.BlockHeight()})
+			mpAfter, dpAfter := app.CfeminterKeeper.GetParams(ctx), app.CfedistributorKeeper.GetParams(ctx)
+			mpa, _ := mpAfter.Marshal()
+			mpb, _ := mp.Marshal()
+			dpa, _ := dpAfter.Marshal()
+			dpb, _ := dp.Marshal()
+			vmAfter := app.UpgradeKeeper.GetModuleVersionMap(ctx)
+			rep.Eval("C16.handler_migrates_parameters_unchanged", string(mpa) == string(mpb) && string(dpa) == string(dpb) && k.GetParams(ctx).Denom == BondDenom &&
+				vmAfter[mintertypes.ModuleName] == 3 && vmAfter[distrtypes.ModuleName] == 3 && vmAfter[vesttypes.ModuleName] == 3, idx, 1,
+				fmt.Sprintf("after the handler: minter params equal %v, distributor params equal %v, vesting denom %q, versions %d %d %d", string(mpa) == string(mpb), string(dpa) == string(dpb),
+					k.GetParams(ctx).Denom, vmAfter[mintertypes.ModuleName], vmAfter[distrtypes.ModuleName], vmAfter[vesttypes.ModuleName]))
+			return
+		}
 		v120.UpdateVestingAccountTraces(ctx, app)
 		if err := v120.ModifyVestingPoolsState(ctx, app); err != nil {
 			panicked = "ModifyVestingPoolsState: " + err.Error()
